@@ -3,6 +3,8 @@
   (the gating theorems over dispatch are added as the proof development proceeds; DESIGN.md §5/C09)
 -/
 import Flamego.Proofs.Assoc
+import Flamego.Proofs.HeaderFilter
+import Flamego.Props.C01
 
 namespace Flamego.C09
 
@@ -89,5 +91,42 @@ theorem headers_evict_shortcut (R : Router) (hid : Nat) (pairs : List HdrPair) (
         exact fold_none _ _ _ (assocGet_assocDel_same _ _)
       · exact ih _ h
   exact key leaves R.statics hm
+
+/-! ### gating of dispatch (all route sets, all requests)
+
+`hok hid` says whether the constraints of registration `hid` hold for the request; every leaf of a
+registration — the long and the short form, in every method's tree — carries the same `hid`, so
+one predicate gates every way the route can be reached. -/
+
+open Flamego.C01 in
+/-- "eligible for a request only if … ": whatever is chosen satisfies its own constraints — for a
+    fully static route, a dynamic one, the long or the short form alike (`l.long` is arbitrary). -/
+theorem chosen_satisfies_constraints (E : Engine) (hok : Nat → Bool) (h : List (Route × Nat))
+    (hP : ∀ rh ∈ h, ∀ s ∈ rh.1.segs, ParsedSeg s = true) (path : Bytes) (l : Leaf)
+    (hc : chosen E hok (build E h) path = some l) : hok l.hid = true := by
+  obtain ⟨_, _, f, _, hid, _, ha⟩ := dispatch_sound E hok h hP path l hc
+  rw [← hid]; exact ha.2
+
+open Flamego.C01 in
+/-- "when the constraints fail the route is invisible (lower-priority routes or the not-found chain
+    take the request)": the winner under constraints is the first walk of the UNCONSTRAINED priority
+    order whose registration's constraints hold — failing routes are skipped, nothing else moves. -/
+theorem constraints_filter_priority_order (E : Engine) (hok : Nat → Bool) (h : List (Route × Nat)) (path : Bytes)
+    (s : Seg) (rest : List Seg) (hs : segsOf path = s :: rest) :
+    chosen E hok (build E h) path =
+      ((derivs E allOK (build E h).subs (build E h).leaves s rest).filter (fun l => hok l.hid)).head? := by
+  rw [dispatch_first E hok h path s rest hs, derivs_filter]
+
+open Flamego.C01 in
+/-- a request that satisfies every constraint is dispatched exactly as if no route were constrained -/
+theorem satisfied_constraints_transparent (E : Engine) (hok : Nat → Bool) (h : List (Route × Nat)) (path : Bytes)
+    (hall : ∀ i, hok i = true) : chosen E hok (build E h) path = chosen E allOK (build E h) path := by
+  have : hok = allOK := funext hall
+  rw [this]
+
+/-- at the router: the same constraint set is consulted for every leaf of the registration, in
+    every method's tree (the lookup is by `hid` alone) -/
+theorem one_constraint_set_per_registration (E : Engine) (R : Router) (req : List (Bytes × Bytes)) (l₁ l₂ : Leaf)
+    (h : l₁.hid = l₂.hid) : R.hok E req l₁.hid = R.hok E req l₂.hid := by rw [h]
 
 end Flamego.C09
